@@ -343,3 +343,11 @@ def prove(report: Report, prop: str, translators, extra_targets=()):
     blocks, _ = print_assumptions(prop)
     report.coverage["axioms"] = {t: (blocks[i] if i < len(blocks) else "?") for i, t in enumerate(theorems)}
     return {"ok": True, "broken": None}
+
+
+def free_port() -> int:
+    """a loopback TCP port that is free right now (asked from the kernel: several checks may run at the same time)"""
+    import socket
+    with socket.socket(socket.AF_INET, socket.SOCK_STREAM) as sock:
+        sock.bind(("127.0.0.1", 0))
+        return sock.getsockname()[1]
